@@ -16,6 +16,7 @@ package main
 import (
 	"fmt"
 	"go/ast"
+	"go/printer"
 	"go/token"
 	"strings"
 )
@@ -214,4 +215,115 @@ func genC20Flags(p *Pkg) (map[string]string, error) {
 	}
 	fmt.Fprintf(&b, "def caseCount : Nat := %d\n\nend GojaModel.Generated.C20\n", len(cases))
 	return map[string]string{"C20_Flags.lean": b.String()}, nil
+}
+
+// ---------------------------------------------------------------------------------------------------
+// Routing of regexpPattern.findSubmatchIndex / findAllSubmatchIndex (regexp.go): which engine / wrapper is
+// called under which conditions.  Emitted as a decision tree over a fixed vocabulary of conditions and
+// calls (exact source text); anything outside the vocabulary becomes `.other "…"` / `.bad "…"`, which the
+// Tie theorems reject.  Statement forms understood: `if c { … }` without else/init, `return e`,
+// `x, y := call` (binding), expression statements and range/for loops (post-processing, skipped).
+
+func init() { Register("C20", genC20Routing) }
+
+var c20Conds = map[string]string{
+	"p.regexpWrapper == nil": ".noLinear", "start == 0": ".startZero", "start != 0": ".startNonZero", "u == nil": ".asciiSubject",
+	"limit == 1": ".limitOne", "p.unicode": ".unicodeFlag", "pm != nil": ".pmOk", "result.indexes == nil": ".noMatch",
+}
+
+var c20Calls = map[string]string{
+	"p.regexp2Wrapper.findAllSubmatchIndex(s, start, limit, sticky, p.unicode)":     ".r2All",
+	"p.regexpWrapper.findAllSubmatchIndex(string(a), limit, sticky)":                ".goAllAscii",
+	"[]regexpResult{p.regexpWrapper.findSubmatchIndexUnicode(u, p.unicode)}":        ".linearSingle",
+	"p.regexpWrapper.findAllSubmatchIndex(str, limit, sticky)":                      ".goAllUtf8",
+	"p.regexp2Wrapper.findSubmatchIndex(s, start, p.unicode, p.global || p.sticky)": ".r2Find",
+	"p.regexpWrapper.findSubmatchIndex(s, p.unicode)":                               ".linearFind",
+	"nil": ".nilResult",
+}
+
+func c20Text(p *Pkg, n ast.Node) string {
+	var b strings.Builder
+	if err := printer.Fprint(&b, p.Fset, n); err != nil {
+		return "?"
+	}
+	return strings.Join(strings.Fields(b.String()), " ")
+}
+
+func c20Subst(p *Pkg, e ast.Expr, env map[string]string) string {
+	switch x := e.(type) {
+	case *ast.Ident:
+		if t, ok := env[x.Name]; ok {
+			return t
+		}
+	case *ast.CompositeLit:
+		parts := []string{}
+		for _, el := range x.Elts {
+			parts = append(parts, c20Subst(p, el, env))
+		}
+		return c20Text(p, x.Type) + "{" + strings.Join(parts, ", ") + "}"
+	}
+	return c20Text(p, e)
+}
+
+func c20Tree(p *Pkg, list []ast.Stmt, env map[string]string) string {
+	for i, s := range list {
+		switch x := s.(type) {
+		case *ast.AssignStmt:
+			if x.Tok == token.DEFINE && len(x.Rhs) == 1 {
+				t := c20Text(p, x.Rhs[0])
+				env2 := map[string]string{}
+				for k, v := range env {
+					env2[k] = v
+				}
+				for _, l := range x.Lhs {
+					if id, ok := l.(*ast.Ident); ok {
+						env2[id.Name] = t
+					}
+				}
+				env = env2
+				continue
+			}
+			continue // plain assignments inside post-processing
+		case *ast.ExprStmt, *ast.RangeStmt, *ast.ForStmt:
+			continue
+		case *ast.IfStmt:
+			if x.Init != nil || x.Else != nil {
+				return fmt.Sprintf("(.bad %s)", LeanString("if with init/else: "+c20Text(p, x.Cond)))
+			}
+			c, ok := c20Conds[c20Text(p, x.Cond)]
+			if !ok {
+				return fmt.Sprintf("(.bad %s)", LeanString("condition: "+c20Text(p, x.Cond)))
+			}
+			rest := list[i+1:]
+			thenList := append(append([]ast.Stmt{}, x.Body.List...), rest...)
+			return fmt.Sprintf("(.ite %s %s %s)", c, c20Tree(p, thenList, env), c20Tree(p, rest, env))
+		case *ast.ReturnStmt:
+			if len(x.Results) != 1 {
+				return "(.bad \"return arity\")"
+			}
+			t := c20Subst(p, x.Results[0], env)
+			if c, ok := c20Calls[t]; ok {
+				return "(.ret " + c + ")"
+			}
+			return fmt.Sprintf("(.ret (.other %s))", LeanString(t))
+		default:
+			return fmt.Sprintf("(.bad %s)", LeanString(fmt.Sprintf("statement %T", s)))
+		}
+	}
+	return "(.bad \"falls off the end\")"
+}
+
+func genC20Routing(p *Pkg) (map[string]string, error) {
+	var b strings.Builder
+	b.WriteString("-- GENERATED by extract/c20.go from regexp.go (findSubmatchIndex / findAllSubmatchIndex routing). Do not edit.\n")
+	b.WriteString("import GojaModel.C20.Model\nnamespace GojaModel.Generated.C20\nopen GojaModel.C20\n\n")
+	for _, fn := range []struct{ name, lean string }{{"findSubmatchIndex", "findTree"}, {"findAllSubmatchIndex", "findAllTree"}} {
+		fd := p.FuncDecl("regexpPattern", fn.name)
+		if fd == nil {
+			return nil, fmt.Errorf("regexpPattern.%s not found", fn.name)
+		}
+		fmt.Fprintf(&b, "def %s : RNode :=\n  %s\n\n", fn.lean, c20Tree(p, fd.Body.List, map[string]string{}))
+	}
+	b.WriteString("end GojaModel.Generated.C20\n")
+	return map[string]string{"C20_Routing.lean": b.String()}, nil
 }
